@@ -345,11 +345,16 @@ class BADS:
                 if plausible_upper_bounds is None:
                     plausible_upper_bounds = np.copy(upper_bounds)
 
-        # ensure at least 2d dimensions
-        upper_bounds = np.atleast_2d(upper_bounds)
-        lower_bounds = np.atleast_2d(lower_bounds)
-        plausible_upper_bounds = np.atleast_2d(plausible_upper_bounds)
-        plausible_lower_bounds = np.atleast_2d(plausible_lower_bounds)
+        # ensure at least 2d dimensions (and floating point: integer arrays would
+        # truncate the transformed bounds)
+        def _as_float_2d(a):
+            a = np.atleast_2d(a)
+            return a.astype(float) if a.dtype.kind in "iub" else a
+
+        upper_bounds = _as_float_2d(upper_bounds)
+        lower_bounds = _as_float_2d(lower_bounds)
+        plausible_upper_bounds = _as_float_2d(plausible_upper_bounds)
+        plausible_lower_bounds = _as_float_2d(plausible_lower_bounds)
         # check that all bounds are row vectors with D elements
         upper_bounds = np.atleast_2d(upper_bounds)
         lower_bounds = np.atleast_2d(lower_bounds)
